@@ -417,7 +417,7 @@ func (icfg *internalConfig) processACRH(
 	// (and some reportedly do) split it into multiple ACRH field lines;
 	// see https://github.com/rs/cors/issues/184.
 	acrh, found := reqHdrs[headers.ACRH]
-	if !found {
+	if !found || len(acrh) == 0 {
 		return true
 	}
 	if icfg.asteriskReqHdrs && !icfg.credentialed {
